@@ -33,7 +33,7 @@ F1 = ("Source with negative vo and rs > 0: the terminal voltage vo - rs*Io grows
       "(pinned by tests/unit/test_comp_arith.py::test_source['test 2'], so it cannot be repaired with the suite unedited)")
 F1R = "System(Source('neg', vo=-12, rs=1)) + ILoad(ii=1): Vout = -13 V, the load receives 13 W from a 12 W source; with an RLoad the iteration diverges to inf"
 openf("F1", "C01", F1, ["C01.Law.Vout"], "negative_source_with_rs", F1R)
-openf("F1", "C02", "consequence of F1: " + F1, ["C02.Energy.Row", "C02.Energy.System", "C02.LossRange", "C02.Eff"], "negative_source_with_rs", F1R)
+openf("F1", "C02", "consequence of F1: " + F1, ["C02.Energy.Row", "C02.Energy.System", "C02.Energy.TotalRow", "C02.LossRange", "C02.Eff"], "negative_source_with_rs", F1R)
 openf("F1", "C03", "consequence of F1: " + F1 + "; positive feedback can diverge to an inf/nan table that numpy.allclose accepts",
       ["C03.SourceNoGain", "C03.Residual.Vout", "C03.Residual.Iin", "C03.FindsModest", "C03.NoNaN", "C03.Finite",
        "C03.Sweep.Machine", "C03.PassiveNoGain"], "negative_source_with_rs", F1R)
